@@ -4,7 +4,8 @@
 
    named_args fmt = Some ks : the directives name, in the order in which they are fetched from the
      va_list, arguments of the kinds ks: an int for "*" and ".*", the converted value with the type its
-     length modifier and conversion give it; a directive "n$..." names all arguments up to position n
+     length modifier and conversion give it (a %s argument together with its precision: none, a literal, or
+     the int that ".*" fetched just before it); a directive "n$..." names all arguments up to position n
      that no earlier positional directive has named yet (with its own type - pop_arg caches them with
      the type of the directive that passes them, D33).  Scanning stops where printf_format stops in its
      assertion hook for purely syntactic reasons (the string ends inside a directive, a literal
@@ -15,11 +16,21 @@ From Coq Require Import NArith ZArith List Bool.
 Import ListNotations.
 Local Open Scope Z_scope.
 
-Inductive argkind := KInt | KLong | KLLong | KPtr | KStr.     (* KStr: a pointer that %s dereferences *)
+(* how many bytes of its argument a %s may read: no precision / a literal precision / the int fetched by ".*"
+   just before the string *)
+Inductive slimit := SNone | SLit (n : nat) | SStar.
+Inductive argkind := KInt | KLong | KLLong | KPtr | KStr (lim : slimit).     (* KStr: a pointer that %s dereferences *)
 
+Definition slimit_eqb (a b : slimit) : bool :=
+  match a, b with
+  | SNone, SNone | SStar, SStar => true
+  | SLit n, SLit m => Nat.eqb n m
+  | _, _ => false
+  end.
 Definition kind_eqb (a b : argkind) : bool :=
   match a, b with
-  | KInt, KInt | KLong, KLong | KLLong, KLLong | KPtr, KPtr | KStr, KStr => true
+  | KInt, KInt | KLong, KLong | KLLong, KLLong | KPtr, KPtr => true
+  | KStr l1, KStr l2 => slimit_eqb l1 l2
   | _, _ => false
   end.
 
@@ -43,15 +54,15 @@ Fixpoint sk_flags (l : list N) (ap : Z) : option (Z * list N) :=
   end.
 
 (* a literal width / precision.  None: the string ends after a digit, or the number does not fit an int *)
-Fixpoint sk_number (l : list N) (w : Z) : option (list N) :=
+Fixpoint sk_number (l : list N) (w : Z) : option (Z * list N) :=      (* the value and the rest *)
   match l with
-  | [] => Some []
+  | [] => Some (w, [])
   | c :: r =>
     if isdig c then
       if w <=? (2147483647 - (Z.of_N c - 48)) / 10 then
         (if N.eqb (hd0 r) 0 then None else sk_number r (w * 10 + (Z.of_N c - 48)))
       else None
-    else Some l
+    else Some (w, l)
   end.
 
 Inductive lmod := MNone | Mhh | Mh | Ml | Mll | Mz | Mt | Mj | ML.
@@ -76,7 +87,8 @@ Definition sk_mod (l : list N) : option (lmod * list N) :=
 (* the argument the conversion character consumes *)
 Definition is_int_conv_char (t : N) : bool :=
   N.eqb t 100 || N.eqb t 105 || N.eqb t 98 || N.eqb t 66 || N.eqb t 111 || N.eqb t 120 || N.eqb t 88 || N.eqb t 117.
-Definition conv_kinds (t : N) (m : lmod) : list argkind :=
+(* lim: the precision of the directive; a positional %n$s is asked for a terminated string whatever its precision *)
+Definition conv_kinds (t : N) (m : lmod) (lim : slimit) (ap : Z) : list argkind :=
   if is_int_conv_char t then
     match m with
     | ML => []
@@ -85,7 +97,7 @@ Definition conv_kinds (t : N) (m : lmod) : list argkind :=
     | MNone | Mhh | Mh => [KInt]
     end
   else if N.eqb t 99 then [KInt]
-  else if N.eqb t 115 then [KStr]
+  else if N.eqb t 115 then [KStr (if ap =? -1 then lim else SNone)]
   else if N.eqb t 112 then [KPtr]
   else [].
 
@@ -106,6 +118,7 @@ Definition fetch_list (ks : list argkind) (ap : Z) (ck : list argkind) : option 
   end.
 
 Inductive wres := WCut | WConf | WOk (ks : list argkind) (ck : list argkind) (l : list N).
+Inductive pres := PCut | PConf | POk (ks : list argkind) (ck : list argkind) (l : list N) (lim : slimit).
 Inductive dres := DCut (ks : list argkind) | DConf | DOk (ks : list argkind) (ck : list argkind) (l : list N).
 
 (* one directive; l starts after the '%' *)
@@ -116,25 +129,25 @@ Definition sk_directive (l : list N) (ck : list argkind) : dres :=
     match (if N.eqb (hd0 l1) 42 then
              (if N.eqb (hd0 (tl l1)) 0 then WCut
               else match fetch KInt ap ck with None => WConf | Some (k1, ck1) => WOk k1 ck1 (tl l1) end)
-           else match sk_number l1 0 with None => WCut | Some l2 => WOk [] ck l2 end) with
+           else match sk_number l1 0 with None => WCut | Some (_, l2) => WOk [] ck l2 end) with
     | WCut => DCut []
     | WConf => DConf
     | WOk k1 ck1 l2 =>
       match (if N.eqb (hd0 l2) 46 then
                let l3 := tl l2 in
-               if N.eqb (hd0 l3) 0 then WCut
+               if N.eqb (hd0 l3) 0 then PCut
                else if N.eqb (hd0 l3) 42 then
-                 (if N.eqb (hd0 (tl l3)) 0 then WCut
-                  else match fetch KInt ap ck1 with None => WConf | Some (k2, ck2) => WOk k2 ck2 (tl l3) end)
-               else match sk_number l3 0 with None => WCut | Some l4 => WOk [] ck1 l4 end
-             else WOk [] ck1 l2) with
-      | WCut => DCut k1
-      | WConf => DConf
-      | WOk k2 ck2 l4 =>
+                 (if N.eqb (hd0 (tl l3)) 0 then PCut
+                  else match fetch KInt ap ck1 with None => PConf | Some (k2, ck2) => POk k2 ck2 (tl l3) SStar end)
+               else match sk_number l3 0 with None => PCut | Some (v, l4) => POk [] ck1 l4 (SLit (Z.to_nat v)) end
+             else POk [] ck1 l2 SNone) with
+      | PCut => DCut k1
+      | PConf => DConf
+      | POk k2 ck2 l4 lim =>
         match sk_mod l4 with
         | None => DCut (k1 ++ k2)
         | Some (m, l5) =>
-          match fetch_list (conv_kinds (hd0 l5) m) ap ck2 with
+          match fetch_list (conv_kinds (hd0 l5) m lim ap) ap ck2 with
           | None => DConf
           | Some (k3, ck3) => DOk (k1 ++ k2 ++ k3) ck3 (tl l5)
           end
